@@ -316,7 +316,7 @@ func init() {
 		Rule: "Part A — schedules: real plush code (overlay: scheduling points at every function entry/loop head of the root package and at every mutex operation, sync replaced by a scheduler-aware shim) run under a cooperative scheduler; ALL interleavings with at most B preemptions are enumerated depth-first (choice-prefix replay; replay divergence is a hard error) for: one parsed template executed by 2 threads with own root contexts / with children of one shared parent (13 templates, one per construct class, different data per thread), Render of the same text with a cold cache, Parse vs CacheSet; oracle: every thread's (out, err) equals its solo result, no deadlock, no panic. Context operations: every pair of 2-operation threads over {Set(k,1), Set(k,2), Value(k), Has(k), Set(j,5), Value(j)} on one context with UNBOUNDED preemptions; every recorded call/return history must be linearizable w.r.t. a sequential map (brute force); New() racing with Set/Value with bound 1. Part B — data races: the same scenario bodies free-running with 2, 8 and 32 goroutines in a separate -race build, repeated; any race report or 'concurrent map' fatal error is a violation attributed to the scenario. Non-trivial: all scenarios (>=2 threads).",
 		Bound: func(th bool) string {
 			if th {
-				return "Part A: per scenario the largest preemption bound b with n^(b+1)/b! <= 2e8 scheduling points (n = points of the default schedule; reported per case, typically 2-3), 2 threads; context ops unbounded for 2 threads x 2 ops and 3 threads x 1 op, bound 3 for 3 threads (2+1+1 ops); Part B: 200 repetitions x {2,8,32} goroutines"
+				return "Part A: per scenario the largest preemption bound b with n^(b+1)/b! <= 2e8 scheduling points (n = points of the default schedule; reported per case, typically 2-3), 2 and 3 threads; context ops unbounded for 2 threads x 2 ops and 3 threads x 1 op, bound 3 for 3 threads (2+1+1 ops); Part B: 200 repetitions x {2,8,32} goroutines"
 			}
 			return "Part A: per scenario the largest preemption bound b with n^(b+1)/b! <= 4e6 scheduling points (n = points of the default schedule; reported per case, typically 1-2), 2 threads; context ops unbounded, 2 threads x 2 ops; Part B: 30 repetitions x {2,8,32} goroutines"
 		},
@@ -347,17 +347,24 @@ func c14Run(t *engine.T, shard string) {
 }
 
 func c14Explore(t *engine.T, sc c14Scenario) {
+	c14ExploreN(t, sc, 2)
+	if t.Thorough {
+		c14ExploreN(t, sc, 3)
+	}
+}
+
+func c14ExploreN(t *engine.T, sc c14Scenario, nthreads int) {
 	// measure the number of scheduling points of the default schedule
 	vtick.Reset(vtick.Off)
-	bodies, _, _, cleanup := sc.setup(2)
+	bodies, _, _, cleanup := sc.setup(nthreads)
 	x, _ := sched.Run(bodies, nil, 1<<20)
 	cleanup()
 	// determinism of the harness itself: the same schedule replayed must give the same points
-	bodies2, _, _, cleanup2 := sc.setup(2)
+	bodies2, _, _, cleanup2 := sc.setup(nthreads)
 	x2, _ := sched.Run(bodies2, nil, 1<<20)
 	cleanup2()
 	if len(x2.Points) != len(x.Points) {
-		t.Case("determinism self-check "+sc.name, false, func() (string, *engine.Fail) {
+		t.Case(fmt.Sprintf("determinism self-check %s threads=%d", sc.name, nthreads), false, func() (string, *engine.Fail) {
 			return "", engine.Failf("nondeterminism", "the default schedule of this scenario has %d scheduling points on the first run and %d on the second: the code under test carries state between executions that the scheduler does not control (e.g. a pool or a global); on the unchanged tree the two runs are identical", len(x.Points), len(x2.Points))
 		})
 		return
@@ -377,7 +384,7 @@ func c14Explore(t *engine.T, sc c14Scenario) {
 		est *= n
 		fact *= float64(b + 1)
 	}
-	t.Case(fmt.Sprintf("schedules %s threads=2 preemption-bound=%d (default schedule has %d points)", sc.name, bound, len(x.Points)), true, func() (string, *engine.Fail) {
+	t.Case(fmt.Sprintf("schedules %s threads=%d preemption-bound=%d (default schedule has %d points)", sc.name, nthreads, bound, len(x.Points)), true, func() (string, *engine.Fail) {
 		vtick.Reset(vtick.Off)
 		var res, want []c14Res
 		var cleanup func()
@@ -386,7 +393,7 @@ func c14Explore(t *engine.T, sc c14Scenario) {
 				cleanup()
 			}
 			var b []func()
-			b, res, want, cleanup = sc.setup(2)
+			b, res, want, cleanup = sc.setup(nthreads)
 			return b
 		}, bound, 0, 1<<20, func(x *sched.Exec, s []int) string {
 			for i := range res {
